@@ -8,13 +8,19 @@ from . import ast
 from . import parser
 
 
+# TatSu drops None nodes from closures, hence NULL elements of a list
+# literal: the null rule returns this marker, replaced by None when
+# the enclosing list or Constant node is built.
+_NULL = object()
+
+
 class BQLSemantics:
 
     def set_context(self, ctx):
         self._ctx = ctx
 
     def null(self, value):
-        return None
+        return _NULL
 
     def integer(self, value):
         return int(value)
@@ -38,7 +44,7 @@ class BQLSemantics:
         return ast.Asterisk()
 
     def list(self, value):
-        return list(value)
+        return [None if item is _NULL else item for item in value]
 
     def ordering(self, value):
         return ast.Ordering[value or 'ASC']
@@ -46,7 +52,7 @@ class BQLSemantics:
     def _default(self, value, typename=None):
         if typename is not None:
             func = getattr(ast, typename)
-            return func(**{name.rstrip('_'): value for name, value in value.items()})
+            return func(**{name.rstrip('_'): None if value is _NULL else value for name, value in value.items()})
         return value
 
 
